@@ -71,11 +71,16 @@ func checkC06(r *report.Report, tier string, seed int64) error {
 	opt.Explicit = 1.2
 	opt.Hooks = 0
 	r.Rule = "notation sets addressing top-level and nested destination paths (:skip plain/regexp/case variants, :map incl. getter chains and $n, :conv, :literal, duplicates) with both case modes; oracle on the real output: a path matching a :skip pattern is never written (also not through an enclosing copy), an explicitly targeted path is fed from exactly that source or reported no match; non-trivial = exit 0 and at least one explicit notation; distinct by file contents"
-	return pipelineCheck(r, "C06", seed, tierN(tier, 224, 8000), opt, nil,
-		func(cr *caseRun) bool {
-			s := cr.C.Files[cr.C.SetupPath]
-			return cr.Impl.Status == 0 && (strings.Contains(s, ":skip") || strings.Contains(s, ":map") || strings.Contains(s, ":conv") || strings.Contains(s, ":literal"))
-		}, c06Oracle)
+	nt := func(cr *caseRun) bool {
+		s := cr.C.Files[cr.C.SetupPath]
+		return cr.Impl.Status == 0 && (strings.Contains(s, ":skip") || strings.Contains(s, ":map") || strings.Contains(s, ":conv") || strings.Contains(s, ":literal"))
+	}
+	if err := pipelineCheck(r, "C06", seed, tierN(tier, 160, 6000), opt, nil, nt, c06Oracle); err != nil {
+		return err
+	}
+	// case-biased: :case:off in half of the methods, explicit targets and :skip patterns that differ from the field in case only
+	opt.CaseBias = true
+	return pipelineCheck(r, "C06", seed+3, tierN(tier, 96, 3000), opt, nil, nt, c06Oracle)
 }
 
 func checkC17(r *report.Report, tier string, seed int64) error {
